@@ -912,8 +912,10 @@ def to_poly(e: expr.Expr, conds: Conditions) -> Polynomial:
 
     elif e.is_fun() and e.func_name in ("asin", "acos", "atan", "acot", "acsc", "asec"):
         a, = e.args
-        if e.func_name in ("atan", "acot") and a.is_fun() and a.func_name == e.func_name[1:]:
-            # atan(tan(x)) = x
+        if e.func_name in ("atan", "acot") and a.is_fun() and a.func_name == e.func_name[1:] and \
+                conds.get_bounds_for_expr(a.args[0]).contained_in(
+                    Interval.open(-(expr.pi / 2), expr.pi / 2) if e.func_name == "atan" else Interval.open(expr.Const(0), expr.pi)):
+            # atan(tan(x)) = x on the principal branch only
             return to_poly(a.args[0], conds)
         else:
             return singleton(expr.Fun(e.func_name, normalize(a, conds)), conds)
